@@ -72,8 +72,10 @@ def write_evidence(pid, tier, seed, units, results, known_hit, violations, undec
     if tabs: cov["table_ground_evaluation"] = [dict(t, back_end="exhaustive ground evaluation (python big integers, tools/check_tables.py); each entry counts as one obligation") for t in tabs]
     ev = {"property_id": pid, "tier": tier, "seed": seed, "level": "proof", "coverage": cov,
           "assumptions": sorted(set(assumptions)), "wall_s": round(wall, 2), "violations": len(violations)}
-    os.makedirs(os.path.join(VERIF, "evidence"), exist_ok=True)
-    json.dump(ev, open(os.path.join(VERIF, "evidence", pid + ".json"), "w"), indent=1)
+    # a run against a scratch overlay (VERIF_REPO set: seeded-change evaluation) must not overwrite the evidence of /repo
+    evdir = os.path.join(VERIF, "evidence") if os.environ.get("VERIF_REPO", "/repo") == "/repo" else os.path.join(VERIF, "build", "overlay-evidence")
+    os.makedirs(evdir, exist_ok=True)
+    json.dump(ev, open(os.path.join(evdir, pid + ".json"), "w"), indent=1)
 
 # ---------------------------------------------------------------- canaries
 
